@@ -563,6 +563,9 @@ class TrackerProp(Prop):
         ops = []
         for h in range(n):
             ops += gentrack.history(rng, ln, n_planes=1 + rng.below(5), with_time=self.with_time)
+        # boundary addresses by construction, through both carriers (DF17 and DF18 / TIS-B): all zero, one, all ones, a zero middle byte
+        for dfs in ([18, 18, 18, 18], [17, 17, 17, 17], [18, 17, 17, 18]):
+            ops += gentrack.history(rng, 60, n_planes=4, with_time=self.with_time, addrs=[0x000000, 0x000001, 0xFFFFFF, 0x00FF00], dfs=dfs)
         return ops
     with_time = True
     def equal(self, a, m): return a == m or numeq(a, m)
@@ -872,8 +875,42 @@ def text_equal(a, m, tol=2e-3):
             fx, fy = float(x), float(y)
         except ValueError:
             return False
+        # printed integers (the rounded track, the floored speed, altitudes, rates, counts) must be equal as printed: the tolerance is for the
+        # formatting of fractional values only (seed C11_f: a speed one knot off passed as "within 0.2 %")
+        # (the model's driver prints a whole number as `4160.000000`)
+        if fx == int(fx) and fy == int(fy):
+            if fx != fy: return False
+            continue
         if abs(fx - fy) > tol * max(1.0, abs(fx)): return False
     return True
+
+_NIS = {}
+def near_integer_speeds(n):
+    """component pairs (scale, |v_ew|, |v_ns|) of airborne-velocity reports whose ground speed scale*sqrt(a^2+b^2) is, among all 2 x 1023^2 pairs,
+    closest below an integer, closest above one, or exactly integral (n of each kind per scale, the largest speeds first among ties)"""
+    if n in _NIS: return _NIS[n]
+    import math
+    out = []
+    for scale in (1, 4):
+        below, above, exact = [], [], []
+        for a in range(0, 1023):
+            aa = a * a
+            for c in range(a, 1023):
+                N = scale * scale * (aa + c * c)
+                k = math.isqrt(N)
+                if k * k == N:
+                    if k: exact.append((-k, a, c))
+                    continue
+                lo = (N - k * k) / (2.0 * k) if k else 9.0            # sqrt(N) - k, first order
+                hi = ((k + 1) * (k + 1) - N) / (2.0 * (k + 1))        # (k+1) - sqrt(N)
+                if hi < 2e-4: below.append((hi, a, c))
+                if lo < 2e-4: above.append((lo, a, c))
+        for lst in (below, above, exact):
+            lst.sort()
+            for (_, a, c) in lst[:n]:
+                out.append((scale, a, c)); out.append((scale, c, a))
+    _NIS[n] = out
+    return out
 
 class C11(Prop):
     id = "C11"; module = "Adsb.Theorems.C11"; design_ref = "5/C11"
@@ -925,6 +962,11 @@ class C11(Prop):
                     for st in (1, 2):
                         b = rand_frame(rng, df, tc=19); put(b, 37, 3, st); put(b, 45, 1, dew); put(b, 46, 10, vew); put(b, 56, 1, dns); put(b, 57, 10, vns)
                         put(b, 69, 9, 5 + rng.below(100)); fr.append(b)
+                # ground speeds closest below / above an integer and exactly integral, over ALL component pairs of both scales (the printed speed is the
+                # floor of the decoded f64 value: any narrowing or re-rounding of it shows first where sqrt(ew^2 + ns^2) = k - 1/(2k))
+                for (scale, a, c) in near_integer_speeds(60 if tier == "quick" else 400):
+                    b = rand_frame(rng, df, tc=19); put(b, 37, 3, 2 if scale == 4 else 1); put(b, 45, 1, rng.below(2)); put(b, 46, 10, a + 1); put(b, 56, 1, rng.below(2)); put(b, 57, 10, c + 1)
+                    put(b, 69, 9, 5 + rng.below(100)); fr.append(b)
                 for k in range(60 if tier == "quick" else 600):
                     # random tracks within a degree of north on the western side (359 < track < 360)
                     b = rand_frame(rng, df, tc=19); put(b, 37, 3, 1); put(b, 45, 1, 1); put(b, 46, 10, 2 + rng.below(4)); put(b, 56, 1, 0); put(b, 57, 10, 300 + rng.below(700))
